@@ -1104,22 +1104,7 @@ fn replay(path: &std::path::Path) -> i32 {
                 }
             }
         }
-        "D" => {
-            let name = case["name"].as_str().unwrap_or("");
-            let all = keepalive_scenarios(v["seed"].as_u64().unwrap_or(1), false);
-            let Some(s) = all.iter().find(|s| s.name == name) else {
-                println!("scenario {name:?} not found");
-                return 2;
-            };
-            match crate::explore::exec_with(super::c20::run_scn(s), 50_000_000, std::time::Duration::from_secs(120)) {
-                Run::Done(o, _) => fail(&o.violations, &o.log),
-                Run::Watchdog => 2,
-                _ => {
-                    println!("VIOLATION property=C19 replay={}", path.display());
-                    1
-                }
-            }
-        }
+        "D" => super::c20::replay_named("C19", path, v["seed"].as_u64().unwrap_or(1), case["name"].as_str().unwrap_or("")),
         "sniff" => {
             #[cfg(feature = "hooks")]
             {
